@@ -235,6 +235,15 @@ class LoopInterp(Interp):
                 v = ArrV("%s.col[%s]" % (a0.name, idx_str(args[1])))
                 v.view = (a0.name, idx_str(args[1]))
                 return v
+            if name in ("index_axis", "index_axis_mut") and len(args) == 3:
+                ax = unref(args[1])
+                axv = unref(ax.f.get("0")) if isinstance(ax, Rec) and "0" in ax.f else None
+                k = self.dom.concrete(axv.v) if isinstance(axv, Sc) else None
+                if k == 1:
+                    v = ArrV("%s.col[%s]" % (a0.name, idx_str(args[2])))
+                    v.view = (a0.name, idx_str(args[2]))
+                    return v
+                self.unsupported("index_axis over axis %r" % (k,), e)
             if name in ("to_owned", "clone", "view", "view_mut", "column", "row"):
                 return ArrV("%s.%s" % (a0.name, name)) if name in ("column", "row") else a0
             if name in ("iter", "into_iter") and len(args) == 1 and (a0.view is None or a0.view[0] == "diag"):
@@ -895,13 +904,19 @@ def run_loops(chk, F):
             vals = [unref(pp["value"]) for pp in paths]
             ok = len(vals) == 1 and isinstance(vals[0], Tup) and len(vals[0].vs) == 2
             found = repr(vals[0])[:160] if vals else ""
+            recognised = ok
             if ok:
                 lam, vec = unref(vals[0].vs[0]), unref(vals[0].vs[1])
-                ok = isinstance(lam, Sc) and equal(lam.v, A("EIGENVALUES", "0")) and isinstance(vec, ArrV) and \
-                    (vec.view == ("EIGENVECTORS", "0") or vec.name in ("EIGENVECTORS.col[0]",))
+                recognised = isinstance(lam, Sc) and isinstance(vec, ArrV) and vec.name.startswith("EIGENVECTORS.col[") and \
+                    any(a[0] == "v" and a[1] == "EIGENVALUES" for a in lam.v.atoms())
+                ok = recognised and equal(lam.v, A("EIGENVALUES", "0")) and vec.name == "EIGENVECTORS.col[0]"
                 found = "(%s, %s)" % (lam.v.show() if isinstance(lam, Sc) else lam, vec)
-            chk.ob("loops|smallest-ev", ok, "smallest_ev returns the first (smallest, the eigenvalues are ascending) eigenvalue together with "
-                   "the first eigenvector column", body_loc(F, body), found=found, required="(e[0], vecs.column(0))")
+            if not recognised:
+                chk.undecide("loops|smallest-ev", "unsupported: the result is not of the form (e[i], column j of the eigenvectors): %s" % found,
+                             body_loc(F, body))
+            else:
+                chk.ob("loops|smallest-ev", ok, "smallest_ev returns the first (smallest, the eigenvalues are ascending) eigenvalue together with "
+                       "the first eigenvector column", body_loc(F, body), found=found, required="(e[0], vecs.column(0))")
             chk.count("loop-body update statements checked", 1)
         except Unsupported as ex:
             chk.undecide("loops|smallest-ev", "unsupported: %s" % ex, body_loc(F, body))
